@@ -458,7 +458,7 @@ type orderSpec struct {
 func C17() *sim.Check {
 	sitesByID := loadSites()
 	libGoroutines, libBlocking := sitesOfKind("go") > 0, sitesOfKind("blocking") > 0
-	b := &sim.Batch{Name: "orders", Quick: 900, Thorough: 30_000, Isolated: true, PerProc: 40, Workers: 16, ChildTimeout: 1800 * time.Second, StallAfter: 300 * time.Second, Env: []string{"TZ=America/St_Johns", "GOMEMLIMIT=3GiB"}}
+	b := &sim.Batch{Name: "orders", Quick: 900, Thorough: 12_000, Isolated: true, PerProc: 40, Workers: 16, ChildTimeout: 1800 * time.Second, StallAfter: 300 * time.Second, Env: []string{"TZ=America/St_Johns", "GOMEMLIMIT=3GiB"}}
 	b.ChildInit = startDetHelper
 	b.Run = func(c *sim.RunCtx) *sim.Outcome {
 		t := c.T
